@@ -132,18 +132,16 @@ Proof.
       - intros _. lia. }
   destruct (gen_init_spec _ _ Hinit) as (I0 & _).
   destruct (next_total g0 I0) as (i & g1 & Hn & Hrel). rewrite Hn.
-  destruct (g1_facts ds g0 g1 i Hinit Hrel) as (I1 & Hi1 & Hm & Hmw).
-  set (D := Z.max 0 avail). set (W := Wmax ds) in *.
-  set (X := Z.of_nat (length ds) * ((D + ((D + 1) * W + 3)) * W + 1)).
-  assert (HX : Z.of_nat fuel > X).
-  { unfold divide_fuel in Hfuel. fold D W X in Hfuel.
-    assert (0 <= X) by (unfold X; apply Z.mul_nonneg_nonneg; [lia|]; assert (0 <= (D + ((D + 1) * W + 3)) * W) by (apply Z.mul_nonneg_nonneg; nia); lia).
+  destruct (g1_facts ds Hv g0 g1 i Hinit Hrel) as (I1 & Hm & Hw0 & Hw1).
+  set (D := Z.max 0 avail).
+  assert (HC1 : Z.of_nat fuel > (D + 1) * zsum (g_weights g1) + Z.of_nat (length (g_items g1))).
+  { unfold divide_fuel in Hfuel. fold D in Hfuel.
+    set (X := (D + 1) * zsum (weights ds) + Z.of_nat (length ds)) in *.
+    assert ((D + 1) * zsum (g_weights g1) <= (D + 1) * zsum (weights ds)) by (apply Z.mul_le_mono_nonneg_l; lia).
+    assert (0 <= X) by (unfold X; assert (0 <= (D + 1) * zsum (weights ds)) by (apply Z.mul_nonneg_nonneg; lia); lia).
     assert (Z.of_nat (S (Z.to_nat X)) <= Z.of_nat fuel) by (apply inj_le; exact Hfuel).
-    rewrite Nat2Z.inj_succ, Z2Nat.id in H0 by assumption. lia. }
+    rewrite Nat2Z.inj_succ, Z2Nat.id in H1 by assumption. unfold X in *. lia. }
   assert (Hlen1 : length (prefs ds) = length (mins ds)) by congruence.
-  assert (HC1 : Z.of_nat fuel > Cmax D g1).
-  { unfold Cmax. assert (Z.of_nat (length (g_items g1)) * ((D + g_i g1) * g_maxw g1 + 1) <= X); [|lia].
-    unfold X. apply fuel_arith; try lia. nia. }
   assert (Hroom1 : zsum (mins ds) + room (weights ds) (prefs ds) (mins ds) = reach_pref ds)
     by (unfold reach_pref; apply room_tgts; congruence).
   rewrite Hroom1.
@@ -212,12 +210,8 @@ Proof.
   rewrite Hroom2.
   set (mstop := Z.min (Z.min avail (zsum (maxs ds))) (reach_max ds)).
   assert (Hm4 : mstop <= zsum tgt2) by (unfold mstop; lia).
-  assert (HI : g_i g2 <= (D + 1) * W + 3).
-  { unfold Imax in Hi2. assert ((D + g_i g1) * g_maxw g1 <= (D + 1) * W) by (apply Z.mul_le_mono_nonneg; lia). lia. }
-  assert (HC2 : Z.of_nat fuel > Cmax D g2).
-  { unfold Cmax. rewrite It2, Mw2.
-    assert (Z.of_nat (length (g_items g1)) * ((D + g_i g2) * g_maxw g1 + 1) <= X); [|lia].
-    unfold X. apply fuel_arith; try lia. pose proof (gi_i g2 I2). lia. }
+  assert (HC2 : Z.of_nat fuel > (D + 1) * zsum (g_weights g2) + Z.of_nat (length (g_items g2))).
+  { rewrite Hi2, It2. exact HC1. }
   destruct (grow_total (maxs ds) s1 tgt2 mstop D g2 I2 Hls1 H32 H52 Hm4 ltac:(lia) ltac:(unfold mstop; lia)
               fuel i1 HR2 HC2) as (s2 & i2 & g3 & Hg2 & Hend2 & _).
   rewrite Hg2.
